@@ -31,7 +31,7 @@ def run(tier, opts):
         vf.write_ndjson(trace + ".v", recs2)
         ok = common.validate_trace(ck, "Trace_Pow", trace + ".v", f"[{b}] proof of work", f"trace:{b}")
         if ok and (opts.get("selftest") or tier == "thorough") and b == builds[0]:
-            common.selftest_trace(ck, "Trace_Pow", trace + ".v", [("pow", "pre1"), ("pow", "pre2"), ("pow", "h2"), ("pow.result", "ok"), ("powcfg", "ok"), ("commit.end", "ok"), ("absorb", "msg")])
+            common.selftest_trace(ck, "Trace_Pow", trace + ".v", [("pow", "pre1"), ("pow", "pre2"), ("pow", "h1"), ("pow", "digest"), ("pow.result", "ok"), ("powcfg", "ok"), ("commit.end", "ok"), ("absorb", "msg")])
         n_pow = 0
         for r in recs2:
             if r["ev"] == "pow":
